@@ -1055,6 +1055,7 @@ def _apply_fn_full(d, log, fnmap, out_lineno, stub_only=False):
                       'obls': sorted(set(re.findall(r'//\s*OBL\s+(\S+)', '\n'.join(d.raw))))})
         return text
     new_calls = []
+    shape = loop_shape(body)
     if d.calls is not None:
         new_calls = [c for c in call_names(body) if c not in d.calls]
     if d.locals is not None:
@@ -1145,6 +1146,29 @@ def _apply_fn_full(d, log, fnmap, out_lineno, stub_only=False):
         a, b = closures[n - 1]
         clause = head + ('\n' + '\n'.join(lines) + '\n' if lines else ' ')
         edits.append((a, b, clause))
+        if lines:
+            # a closure with a specification needs a block body: brace an expression body (up to the `,` or the closing bracket that ends it)
+            j = b
+            while j < len(body) and body[j] in ' \t\n':
+                j += 1
+            if j < len(body) and body[j] != '{':
+                e_ = j
+                depth = 0
+                while e_ < len(body):
+                    ch = body[e_]
+                    if bk[e_] == 'c':
+                        if ch in '([{':
+                            depth += 1
+                        elif ch in ')]}':
+                            if depth == 0:
+                                break
+                            depth -= 1
+                        elif ch == ',' and depth == 0:
+                            break
+                    e_ += 1
+                if not any(ea <= j < eb or ea < e_ <= eb for (ea, eb, _t) in edits if eb > ea and (ea, eb) != (a, b)):
+                    edits.append((j, j, '{ '))
+                    edits.append((e_, e_, ' }'))
     for text, lines, mode in d.after:
         s, e = find_anchor(body, text, '%s-anchor in %s' % (mode, d.spec))
         pos = e if mode == 'after' else s
@@ -1175,10 +1199,37 @@ def _apply_fn_full(d, log, fnmap, out_lineno, stub_only=False):
     fnmap.append({'label': label, 'fn': name, 'source': file, 'source_line': first_line,
                   'gen_first': out_lineno, 'gen_last': out_lineno + nlines - 1,
                   'body_first': out_lineno + text.count('\n', 0, body_off),
-                  'spec': d.spec, 'new_calls': new_calls,
+                  'spec': d.spec, 'new_calls': new_calls, 'shape': shape,
                   'obls': sorted(set(re.findall(r'//\s*OBL\s+(\S+)', '\n'.join(d.raw))))})
     log.taken.append({'item': d.spec, 'kind': 'fn', 'source_line': first_line, 'bytes': it.end - it.sig_start})
     return text
+
+
+def loop_shape(body):
+    """The loop / exit structure of a function body as written: for every loop in textual order its keyword and the number of `break`, `continue`
+    and `return` inside it.  Loop contracts (invariants, `ensures`) are written for one control-flow shape; when the shape changes a failed
+    proof inside the function is no verdict (runner: undecided)."""
+    kind = rs.code_mask(body)
+    out = []
+    for kw, ks, bo in rs.find_loops(body, kind, 1, len(body) - 1):
+        bc = rs.match_close(body, kind, bo)
+        seg, sk = body[bo:bc], kind[bo:bc]
+        cnt = lambda w: len([1 for _ in rs.find_code(seg, sk, r'\b' + w + r'\b', 0, len(seg))])
+        out.append([kw, cnt('break'), cnt('continue'), cnt('return')])
+    return out
+
+
+_SHAPES = {}
+
+
+def pinned_shapes(template_path):
+    p = os.path.splitext(template_path)[0] + '.shapes'
+    if p not in _SHAPES:
+        try:
+            _SHAPES[p] = json.load(open(p))
+        except Exception:
+            _SHAPES[p] = {}
+    return _SHAPES[p]
 
 
 def apply_fn(d, log, fnmap, out_lineno):
@@ -1575,6 +1626,19 @@ def expand(template_path, out_path, extra_tail=''):
     os.makedirs(os.path.dirname(out_path), exist_ok=True)
     with open(out_path, 'w') as f:
         f.write(text)
+    # loop / exit structure of each taken function against the structure its loop contracts were written for (contracts/<unit>.shapes)
+    pins = pinned_shapes(template_path)
+    key = lambda f: f['spec'] + ' @ ' + f['label']
+    if os.environ.get('VERIF_WRITE_SHAPES') == os.path.splitext(os.path.basename(template_path))[0]:
+        json.dump({key(f): f['shape'] for f in fnmap if 'shape' in f and f['shape']}, open(os.path.splitext(template_path)[0] + '.shapes', 'w'), indent=0, sort_keys=True)
+        _SHAPES.pop(os.path.splitext(template_path)[0] + '.shapes', None)
+    else:
+        for f in fnmap:
+            if 'shape' in f and key(f) in pins and pins[key(f)] != f['shape']:
+                f['shape_changed'] = {'pinned': pins[key(f)], 'now': f['shape']}
+            elif 'shape' in f and f['shape'] and key(f) not in pins and pins:
+                f['shape_changed'] = {'pinned': None, 'now': f['shape']}
+
     return text, fnmap, log
 
 
